@@ -286,6 +286,11 @@ def rule_lookup(ctx: Ctx) -> None:
             ctx.check(rv == "threshold_list[target_labels.index(semantic_label.label)]", "C10-lookup", "get_label_threshold", "hit",
                       f"returns `{rv}`; the bound of a label is the entry of the list at the label's index in target_labels", fi=fi,
                       expected="threshold_list[target_labels.index(semantic_label.label)]", found=rv)
+        elif re.search(r"dict\(zip\(target_labels,threshold_list\)\)|\{\w+:\w+for\(?\w+,\w+\)?inzip\(target_labels,threshold_list\)\}", rv + "".join(S(e.value) for e in p.effects if e.kind == "assign" and e.value is not None)):
+            ctx.violate("C10-lookup", "get_label_threshold", "hit",
+                        f"returns `{rv}`: a dict built from zip(target_labels, threshold_list) keeps the LAST entry of a label that occurs more than once in target_labels "
+                        "(merge_similar_labels maps car/bus/truck ... onto one label); the bound of a label is the entry at the label's (first) index", fi=fi,
+                        expected="threshold_list[target_labels.index(semantic_label.label)]", found=rv)
         else:
             ctx.require(False, f"get_label_threshold: path not over the expected atoms [{p.cond_text()}]")
     ctx.require(rows >= 4, "get_label_threshold: table incomplete")
